@@ -133,3 +133,10 @@ func fnv64(s string) uint64 {
 }
 
 func hex64(h uint64) string { return fmt.Sprintf("%016x", h) }
+
+// TokMsg is the line-protocol encoding of a message (used by the unit-level suites).
+func TokMsg(m *pb.Message) string {
+	var sb strings.Builder
+	tokMsg(&sb, m)
+	return sb.String()
+}
